@@ -240,6 +240,29 @@ pub fn c17(seed: u64, n: usize) {
             pt(&mut l, &p); pt(&mut l, &q); l.arrow().iso(&iso); l.emit();
         }
         if i % 3 == 0 { fwd_tr_cases("C17", &mut r, 1); }
+        if i % 25 == 7 {
+            // exact half turns about a coordinate axis (symmetric rotation matrices), images exactly representable
+            let gr = |r: &mut Rng| (r.below(64) as f64 - 32.0) / 8.0;
+            let p = [Point3::new(gr(&mut r), gr(&mut r), gr(&mut r) + 0.125), Point3::new(gr(&mut r) + 0.25, gr(&mut r), gr(&mut r)), Point3::new(gr(&mut r), gr(&mut r) + 0.5, gr(&mut r))];
+            let tr = Vector3::new(gr(&mut r), gr(&mut r), gr(&mut r));
+            let axis = r.below(3);
+            let flip = |v: &Point3<f64>| match axis { 0 => Point3::new(v.x, -v.y, -v.z), 1 => Point3::new(-v.x, v.y, -v.z), _ => Point3::new(-v.x, -v.y, v.z) } + tr;
+            let q = [flip(&p[0]), flip(&p[1]), flip(&p[2])];
+            let ax = match axis { 0 => Vector3::x_axis(), 1 => Vector3::y_axis(), _ => Vector3::z_axis() };
+            let g = Isometry3::from_parts(Translation3::from(tr), nalgebra::UnitQuaternion::from_axis_angle(&ax, PI));
+            if (p[1] - p[0]).cross(&(p[2] - p[0])).norm() > 1e-3 { emit_frame("half-turn-exact", p, q, Some(&g)); }
+        }
+        if i % 25 == 13 {
+            // tiny but well-shaped triangles at the origin (legs 1e-8 .. 1e-6): not collinear, however small the area
+            let leg = *r.pick(&[1e-8, 3e-8, 1e-7, 1e-6]);
+            let p = [Point3::new(0.0, 0.0, 0.0), Point3::new(leg, 0.0, 0.0), Point3::new(0.0, leg, 0.0)];
+            // images under a quarter turn about z and an exactly representable translation: exact in floating point
+            let tr = Vector3::new(0.5, -0.25, 0.125);
+            let rot = |v: &Point3<f64>| Point3::new(-v.y, v.x, v.z) + tr;
+            let q = [rot(&p[0]), rot(&p[1]), rot(&p[2])];
+            let g = Isometry3::from_parts(Translation3::from(tr), nalgebra::UnitQuaternion::from_axis_angle(&Vector3::z_axis(), PI / 2.0));
+            emit_frame("tiny-at-origin", p, q, Some(&g));
+        }
     }
 }
 
@@ -344,7 +367,9 @@ pub fn c15(seed: u64, n: usize) {
         // a twist / wrench and the entry points
         let x: [f64; 6] = [r.range(-1.0, 1.0), r.range(-1.0, 1.0), r.range(-1.0, 1.0), r.range(-1.0, 1.0), r.range(-1.0, 1.0), r.range(-1.0, 1.0)];
         let xv = Vector6::from_column_slice(&x);
-        let iso = Isometry3::new(Vector3::new(x[0], x[1], x[2]), Vector3::new(x[3], x[4], x[5]));
+        let mut iso = Isometry3::new(Vector3::new(x[0], x[1], x[2]), Vector3::new(x[3], x[4], x[5]));
+        // the same rotation written with the other quaternion (negative scalar part), as a product of poses may give it
+        if i % 4 == 3 { let qn = iso.rotation.into_inner(); iso.rotation = nalgebra::UnitQuaternion::new_unchecked(-qn); }
         v6(&mut l, &x); l.iso(&iso);
         match jac.velocities_from_vector(&xv) { Ok(v) => { l.n(1); v6(&mut l, &v); } Err(_) => { l.n(0); } }
         match jac.velocities(&iso) { Ok(v) => { l.n(1); v6(&mut l, &v); } Err(_) => { l.n(0); } }
